@@ -12,6 +12,7 @@ import (
 	"syscall"
 	"time"
 
+	"github.com/vicanso/pike/cache"
 	"github.com/vicanso/pike/config"
 	"github.com/vicanso/pike/server"
 	"github.com/vicanso/pike/store"
@@ -64,13 +65,18 @@ var c08RealHistory = []string{"GET /k1", "GET /k2", "GET /k1", "GET /k3", "PURGE
 
 func c08RealEnv(dir string, killAt int) (*env.Env, *killStore, error) {
 	env.Silence()
-	b, err := store.VerifNewBadger(dir)
-	if err != nil {
-		return nil, nil, err
+	var ks *killStore
+	url := "badger://" + dir // pike's own store lookup: a directory that does not open is logged and pike serves memory-only
+	if killAt >= 0 {
+		b, err := store.VerifNewBadger(dir)
+		if err != nil {
+			return nil, nil, err
+		}
+		ks = &killStore{inner: b, killAt: killAt}
+		store.VerifRegister("kill://c08", ks)
+		url = "kill://c08"
 	}
-	ks := &killStore{inner: b, killAt: killAt}
-	store.VerifRegister("kill://c08", ks)
-	cfg := env.BasicConfig(config.CacheConfig{Store: "kill://c08", HitForPass: "600s"})
+	cfg := env.BasicConfig(config.CacheConfig{Store: url, HitForPass: "600s"})
 	e := env.New(cfg)
 	e.Respond = func(oc *env.OriginCall) env.OriginResp {
 		if oc.Path == "/k2" {
@@ -112,6 +118,7 @@ func C08Child(mode, dir string, killAt int, clock int64) {
 			os.Exit(3)
 		}
 		cfg := e.Cfg
+		fmt.Printf("STORE opened=%v\n", cache.GetDispatcher("c1").VerifStore() != nil)
 		for _, off := range []int64{0, 300, c08RealT + 50} {
 			freshCaches(cfg)
 			vtime.Set(vtime.Base + clock + off)
@@ -190,6 +197,10 @@ func c08Verify(c *Ctx, scn string, dir string, hout string, what string) (comple
 		}
 	}
 	rout, rerr := runChild("-c08child", "recover", "-c08dir", dir, "-c08clock", strconv.FormatInt(clock, 10))
+	if strings.Contains(rout, "STORE opened=false") {
+		c08Unopenable++
+		c08UnopenableAt = append(c08UnopenableAt, what)
+	}
 	kase := map[string]interface{}{"kill": what, "history_output": hout, "recovery_output": rout}
 	if rerr != nil || strings.Contains(rout, "OPENFAIL") {
 		c.Violation(scn, "does-not-start-after-kill", fmt.Sprintf("%s: recovery failed: %v %s", what, rerr, trunc([]byte(rout))), nil, kase, nil)
@@ -246,6 +257,10 @@ func c08Verify(c *Ctx, scn string, dir string, hout string, what string) (comple
 	}
 	return
 }
+
+// kill points after which the badger directory did not open again (pike then serves memory-only)
+var c08Unopenable int
+var c08UnopenableAt []string
 
 func c08Real(c *Ctx) {
 	if !c.Want("real-badger-kill") {
@@ -346,4 +361,7 @@ func c08Strace(c *Ctx, root string) {
 	}
 	st.States, st.Transitions, st.Nontrivial = st.Execs*2, st.Execs*2, st.Execs
 	st.NOutcomes = int(st.Execs)
+	if c08Unopenable > 0 {
+		c.Sample(map[string]interface{}{"scenario": "real-badger-syscall-kill", "observation": "after these kill points badger refused to open the directory again; pike logged the error and served memory-only (allowed: refetched)", "count": c08Unopenable, "kill_points": c08UnopenableAt})
+	}
 }
